@@ -21,13 +21,19 @@ _POW = "_RNvMs7_NtCs8xvirJzNMvV_4core3numy15overflowing_powCs36Lg0Iv5OGD_8dust_d
 # harnesses, <= 2 unsent changes, <= 3 requested changes). Unwinding assertions stay on.
 _WMR = ("_RINvMs_NtNtCs36Lg0Iv5OGD_8dust_dds4rtps15stateful_writerNtNtB7_12reader_proxy15RtpsReaderProxy22write_message_reliable"
         "NtNtNtB9_26s2e_systems_dust_dds_verif12support_rtps4SentNtB1U_10FixedClockEB9_")
-_CBMC = ["--unwindset", "memcmp.0:17,%s:18,%s.0:7,%s.1:7,%s.0:1,%s.1:3,%s.2:4" % (_EXTEND_WITH, _POW, _POW, _WMR, _WMR, _WMR)]
+def _cbmc(frag, unsent, requested):
+    return ["--unwindset", "memcmp.0:17,%s:18,%s.0:7,%s.1:7,%s.0:%d,%s.1:%d,%s.2:%d"
+            % (_EXTEND_WITH, _POW, _POW, _WMR, frag, _WMR, unsent, _WMR, requested)]
+
+
+_CBMC = _cbmc(1, 3, 4)
+_CBMC_C04 = _cbmc(1, 2, 1)  # one retained change, nothing requested: 1 unsent iteration, requested loop not entered
 
 prop("C01", level="other", explanation="placeholder", bounds="", outside="", level_text="", level_note="",
      technique=_TECH, assumptions=[], cbmc_args=_CBMC)
 prop("C02", level="other", explanation="placeholder", bounds="", outside="", level_text="", level_note="",
      technique=_TECH, assumptions=[], cbmc_args=_CBMC)
 prop("C04", level="other", explanation="placeholder", bounds="", outside="", level_text="", level_note="",
-     technique=_TECH, assumptions=[], cbmc_args=_CBMC)
+     technique=_TECH, assumptions=[], cbmc_args=_CBMC_C04)
 prop("C05", level="other", explanation="placeholder", bounds="", outside="", level_text="", level_note="",
      technique=_TECH, assumptions=[], cbmc_args=_CBMC)
